@@ -15,6 +15,18 @@ VERIF = os.path.dirname(os.path.dirname(os.path.abspath(__file__)))
 ALT = os.environ.get("VERIF_ALT_REPO")
 REPO = ALT or "/repo"
 WORK = os.path.join(VERIF, "work") if not ALT else os.path.join(VERIF, "work", "alt-" + hashlib.sha256(ALT.encode()).hexdigest()[:8])
+# the store / server directories of one invocation of a check: its own, so that two invocations (the quick and the thorough
+# command of one property, say) can run side by side; removed when the invocation ends
+RUNS = os.path.join(WORK, "runs-%d" % os.getpid())
+
+
+def _remove_runs():
+    import shutil
+    shutil.rmtree(RUNS, ignore_errors=True)
+
+
+import atexit
+atexit.register(_remove_runs)
 LEAN = os.path.join(VERIF, "lean")
 HARNESS = os.path.join(VERIF, "harness") if not ALT else os.path.join(WORK, "harness")
 HBIN = os.path.join(WORK, "harness-target", "debug", "bcharness")
